@@ -309,13 +309,6 @@ func pairCases(g *Gen) []*Case {
 }
 
 func runProperty(res *Result, prop, tier string, seed uint64, driver, replay string) {
-	g := NewGen(seed)
-	n := 1500
-	if tier == "thorough" {
-		n = 20000
-		g.maxDepth = 9
-	}
-	var cases []*Case
 	if prop == "C16" {
 		runC16(res)
 		return
@@ -335,6 +328,48 @@ func runProperty(res *Result, prop, tier string, seed uint64, driver, replay str
 	if prop == "C05" {
 		runC05(res, tier, seed, driver)
 		return
+	}
+	// The thorough tier runs many independent batches (fresh generator state derived from the
+	// seed and the batch number) so that memory stays bounded: every batch is generated, sent to
+	// the driver, compared and judged, then dropped.
+	batches, n, depth := 1, 1500, 6
+	if tier == "thorough" {
+		batches, n, depth = 14, 1500, 9
+		if prop == "C04" {
+			batches = 2 // the thorough C04 batch enumerates every subset of unknown families: ~37k cases each
+		}
+	}
+	distinct := map[string]bool{}
+	total := 0
+	opCounts := map[string]int{}
+	for b := 0; b < batches; b++ {
+		g := NewGen(seed + uint64(b)*1000003)
+		g.maxDepth = depth
+		cases := propCases(res, prop, tier, g, n, b)
+		if cases == nil {
+			fmt.Fprintln(os.Stderr, "unknown property", prop)
+			os.Exit(2)
+		}
+		for _, c := range cases {
+			c.ID = fmt.Sprintf("b%d.%s", b, c.ID)
+		}
+		total += len(cases)
+		processBatch(res, prop, driver, cases, distinct)
+		for k, v := range g.opCount {
+			opCounts[k] += v
+		}
+	}
+	res.Cases = total
+	res.Distinct = len(distinct)
+	res.OpCounts = opCounts
+	res.Rule = "seeded recipe generator (SplitMix64, VERIF_SEED) over the constructor API, stdlib/pkg-errors/OS/user types, plus every ordered (outer, inner) kind pair; a case is distinct by recipe text and non-trivial when it built a non-nil error whose streams were all compared"
+}
+
+// propCases builds one batch of cases for a property.
+func propCases(res *Result, prop, tier string, g *Gen, n int, batch int) []*Case {
+	var cases []*Case
+	if prop == "C10" && batch == 0 {
+		oracleC10Nil(res)
 	}
 	switch prop {
 	case "C19":
@@ -364,22 +399,22 @@ func runProperty(res *Result, prop, tier string, seed uint64, driver, replay str
 		cases = append(cases, pairCases(g)...)
 		cases = append(cases, multiCases(g, n)...)
 	default:
-		fmt.Fprintln(os.Stderr, "unknown property", prop)
-		os.Exit(2)
+		return nil
 	}
-	if prop == "C10" {
-		oracleC10Nil(res)
+	if cases == nil {
+		cases = []*Case{}
 	}
-	res.Cases = len(cases)
-	distinct := map[string]bool{}
+	return cases
+}
+
+// processBatch sends a batch to the driver, compares every stream, runs the direct oracles.
+func processBatch(res *Result, prop, driver string, cases []*Case, distinct map[string]bool) {
 	for _, c := range cases {
 		distinct[c.Cmd.String()] = true
 		if c.Rec != nil {
 			res.DepthHist[fmt.Sprint(c.Rec.Depth())]++
 		}
 	}
-	res.Distinct = len(distinct)
-	res.OpCounts = g.opCount
 	model, err := runDriver(driver, cases)
 	if err != nil {
 		res.Notes = append(res.Notes, "driver error: "+err.Error())
@@ -389,22 +424,28 @@ func runProperty(res *Result, prop, tier string, seed uint64, driver, replay str
 		if !ok {
 			m = L(Sym("missing"))
 		}
-		if prop == "C04" && strings.Contains(field(c.Real, "utree").String(), "e280b9") {
-			// marker runes in Error() text (the known barrier finding): outside the domain of the
-			// model's text function until the engine model supplies the escaping; counted, not compared
+		if dbg := os.Getenv("VERIF_DEBUG_CASE"); dbg != "" && dbg == c.ID {
+			fmt.Fprintln(os.Stderr, "DEBUG REAL", c.Real.String())
+			fmt.Fprintln(os.Stderr, "DEBUG MODEL", m.String())
+		}
+		if prop == "C04" && (strings.Contains(field(c.Real, "utree").String(), "e280b9") || field(m, "udom").String() == "n0") {
+			// marker runes in an Error() text at the unknowing process (the known barrier finding D7),
+			// visible or in a hidden part: outside the domain of the transport model's compositional
+			// text function (the model says so itself: udom); counted, not compared
 			res.OracleEvals["C04.tie_skipped_marker_text"]++
 		} else {
 			compare(res, c, m)
 		}
 		runOracles(res, prop, c)
+		c.Real, c.Err, c.Refs = SX{}, nil, nil
 	}
-	res.Rule = "seeded recipe generator (SplitMix64, VERIF_SEED) over the constructor API, stdlib/pkg-errors/OS/user types, plus every ordered (outer, inner) kind pair; a case is distinct by recipe text and non-trivial when it built a non-nil error whose streams were all compared"
-	for i := 0; i < 3 && i < len(cases); i++ {
-		s := cases[len(cases)-1-i].Cmd.String()
-		if len(s) > 600 {
-			s = s[:600] + "…"
+	if len(res.Samples) < 3 {
+		for i := 0; i < 3 && i < len(cases); i++ {
+			s := cases[len(cases)-1-i].Cmd.String()
+			if len(s) > 600 {
+				s = s[:600] + "…"
+			}
+			res.Samples = append(res.Samples, s)
 		}
-		res.Samples = append(res.Samples, s)
 	}
-	_ = strings.TrimSpace
 }
